@@ -84,7 +84,17 @@ func (e *Env) buildDid(op *Op, a *Actor) (*Built, string) {
 			keys = sidPubKeys(owner, 0)
 		}
 		accId := cosmosAccountId(acc)
-		msgText := fmt.Sprintf("I accept %s at %d", did, ts)
+		// the text wallets show and sign (format of the repository's own client tests)
+		msgDid, msgTs := did, ts
+		switch op.Mis {
+		case "msgdid":
+			// a signature the account gave for a different DID, re-submitted for this one
+			msgDid = "did:sid:" + strings.Repeat("ab", 32)
+		case "msgts":
+			// a signature given long ago, re-submitted with a fresh timestamp field
+			msgTs = ts - 100_000
+		}
+		msgText := fmt.Sprintf("Link this account to your did: %s\nTimestamp: %d", msgDid, msgTs)
 		signer := acc
 		if op.Mis == "otherkey" {
 			signer = a
@@ -138,7 +148,7 @@ func (e *Env) buildDid(op *Op, a *Actor) (*Built, string) {
 			AccountAuth: &didtypes.AccountAuth{AccountDid: accountDid, AccountEncryptedSeed: "seed-" + acc.Name, SidEncryptedAccount: "enc-" + acc.Name},
 			Proof:       &didtypes.BindingProof{Version: 1, Message: msgText, Signature: sig, Account: accId, Did: did, Timestamp: ts},
 		}
-		pt := &ProofTruth{AccountId: accId, Did: did, SignedByAccountKey: signer == acc && op.Mis != "badsig", Timestamp: int64(ts), BlockTime: now, NewSid: newSid}
+		pt := &ProofTruth{AccountId: accId, Did: msgDid, SignedByAccountKey: signer == acc && op.Mis != "badsig", Timestamp: int64(msgTs), BlockTime: now, NewSid: newSid}
 		return &Built{Msgs: []sdk.Msg{m}, Signer: a, Proof: pt, Info: fmt.Sprintf("did=%s acc=%s ts=%+d", short(root), acc.Name, op.N)}, ""
 	case "did_update":
 		owner := e.ref(op.To, a)
